@@ -191,8 +191,15 @@ def obligations(tier, rng):
     for a, b in [(1, 3), (0, 2)]:
         f = ('or', ('always_t', X, 0, b), ('until_t', X, Y, a, b))
         for itv in ['[%ds,%ds]' % (a, b), '[%ds,%dms]' % (a, b * 1000), '[%dms,%ds]' % (a * 1000, b), '[%d,%ds]' % (a, b),
-                    '[%d,%dms]' % (a * 1000, b * 1000)]:
+                    '[%d,%dms]' % (a * 1000, b * 1000), '[%dms,%d]' % (a * 1000, b * 1000), '[%ds,%d]' % (a, b), '[%dus,%d]' % (a * 10 ** 6, b * 10 ** 6)]:
             add('unless-sugar-units', f, 'out = ' + text(f), 'out = (x) unless%s (y)' % itv)
+    # one-sided units on the other bounded operators: the bound without a unit takes the unit of the other bound
+    for k, fmt in [('once_t', 'once%s(x)'), ('always_t', 'always%s(x)'), ('since_t', '(x) since%s (y)'), ('until_t', '(x) until%s (y)'), ('historically_t', 'H%s x'),
+                   ('eventually_t', 'F%s x')]:
+        for a, b in [(0, 2), (1, 2)]:
+            f = (k, X, Y, a, b) if k in ('since_t', 'until_t') else (k, X, a, b)
+            for itv in ['[%dms,%d]' % (a * 1000, b * 1000), '[%d,%dms]' % (a * 1000, b * 1000), '[%ds:%d]' % (a, b)]:
+                add('one-sided-units', f, 'out = ' + text(f), 'out = ' + fmt % itv)
     seen = set()
     res_ = [o for o in out if not (o['oid'] in seen or seen.add(o['oid']))]
     from .. import core as _core
